@@ -41,6 +41,40 @@ def has_date_part_argument(s):
     return False
 
 
+def late_evidence_explains(stmt, spec_pairs, impl_pairs):
+    """the only difference: sources the specification leaves UNRESOLVED (bare column name) are attributed by the implementation to a
+    table, and that column name is referenced in at least two query blocks of the statement (the graph then holds `table.name` from the
+    other block, which the late resolution of holders.py takes as evidence)"""
+    sp, im = {tuple(p) for p in spec_pairs}, {tuple(p) for p in impl_pairs}
+    only_spec, only_impl = sp - im, im - sp
+    if not only_spec or not only_impl:
+        return False
+    names = set()
+    for src, tgt in only_spec:
+        if "." in src:
+            return False
+        if not any(t == tgt and s_.endswith("." + src) for s_, t in only_impl):
+            return False
+        names.add(src)
+    for s_, t in only_impl:
+        if not any(t == tgt and s_.endswith("." + n) for n, tgt in only_spec):
+            return False
+    blocks = [n for n in gensql._walk(stmt) if isinstance(n, list) and len(n) == 7 and n[0] == "select"]
+
+    def own_refs(block):
+        out, stack = set(), [block[2], block[4], block[5], block[6]] + [[j[2] for j in fe[1]] for fe in block[3]]
+        while stack:
+            x = stack.pop()
+            if isinstance(x, list):
+                if len(x) == 7 and x and x[0] == "select":
+                    continue
+                if len(x) == 3 and x[0] == "col" and isinstance(x[2], str):
+                    out.add(x[2].lower())
+                stack.extend(x)
+        return out
+    return all(sum(1 for b in blocks if n in own_refs(b)) >= 2 for n in names)
+
+
 def name_leak_shape(stmt):
     """finding D9: a derived table whose query JOINs a relation whose exposed name (alias, or bare name when un-aliased) is also an
     exposed name of the ENCLOSING FROM clause.  `list_join_clause` crawls into derived tables, so the inner relation is a candidate in
@@ -275,7 +309,11 @@ def run(chk):
         lspec = ans1[ci]["spec"][0].get("colflow")
         if lspec is not None and isinstance(ip, list):
             st.c["spec-covered"] += 1
-            if sorted(map(tuple, lspec)) != sorted(map(tuple, pairs_of(ip))):
+            if sorted(map(tuple, lspec)) != sorted(map(tuple, pairs_of(ip))) and late_evidence_explains(s, lspec, pairs_of(ip)):
+                # not legislated either way (see reference_pairs): a column the specification leaves unresolved is resolved by the
+                # assembler because ANOTHER query block of the statement visibly reads a column of that name from a candidate
+                st.c["spec-not-covered:late-evidence"] += 1
+            elif sorted(map(tuple, lspec)) != sorted(map(tuple, pairs_of(ip))):
                 if "D9" in listed and ip == m1 and name_leak_shape(s):
                     # the recorded finding D9: identified by its shape AND implementation = model
                     chk.known("D9")
